@@ -37,8 +37,13 @@ def run_rules(prop, src, tier):
         rid = f'{prop}-H1'
         chk.rule(rid, 'history independence: no function on the property\'s path leaves state behind for a later call or another instance '
                       '(module/class-level state, mutable defaults, memoising decorators), except caches whose key determines the cached value', 1)
-        scopes = {rel: effects.path_scope(chk, rel) for rel in files}
+        scopes = {rel: effects.path_scope(chk, rel) | set(getattr(mod, 'EXTRA_SCOPE', {}).get(rel, ())) for rel in files}
         effects.history_rule(chk, files, rid)
+        hid = f'{prop}-H2'
+        chk.rule(hid, 'caller-owned containers: no function on the path pops from / appends to / clears a dict or list that belongs to its caller '
+                      '(its own **kwargs and names re-bound to a fresh copy are its own)', 0)
+        for rel in files:
+            effects.borrowed_argument_rule(chk, rel, scopes[rel], hid)
         from .core import dtypes
         tid = f'{prop}-T1'
         chk.rule(tid, 'element types: every buffer allocated on the property\'s path has the element kind it has on the reviewed tree '
